@@ -116,6 +116,14 @@ else:
     with open(out, "w") as f:
         f.write(text)
 
+if name == "clustalo" and opt("--distmat-out") and mode not in ("garbage",):
+    # full distance matrix output: first line the number of sequences, then 'label d d d ...' per sequence
+    nrec = len(recs)
+    with open(opt("--distmat-out"), "w") as f:
+        f.write("%d\n" % nrec)
+        for a in range(nrec):
+            f.write("%s %s\n" % (recs[a][0], " ".join("%.6f" % (0.0 if a == b else 0.1 * (1 + abs(a - b))) for b in range(nrec))))
+
 if tree and mode != "notree":
     n = len(recs)
     def leaf(i):
